@@ -106,7 +106,7 @@ def run_check(pid, tier, seed, replay=None, write_evidence=True):
     try:
         cfg = mod.config(tier)
         # ---- 1. model checking of the as-built / intended models (in background threads)
-        mc_jobs = cfg.get("mc", [])
+        mc_jobs = [] if replay else cfg.get("mc", [])
         ex = ThreadPoolExecutor(max_workers=max(1, len(mc_jobs)))
         mc_futs = [(j, ex.submit(tlc.mc, j["module"], j["cfg"], j.get("workers", 4), j.get("timeout", 900),
                                  tuple(j.get("extra", ())), j.get("env"))) for j in mc_jobs]
